@@ -132,6 +132,23 @@ func (h *hist) insert(entry *tc.VerifiedTx) errors.ErrCode {
 	return code
 }
 
+// forgetCompleted mirrors what the pool does when a block completes: every pooled entry of a sender
+// up to the committed nonce is dropped, so a later arrival with such a nonce replaces nothing.
+func (h *hist) forgetCompleted(txs []*types.Transaction) {
+	h.mu.Lock()
+	defer h.mu.Unlock()
+	for _, t := range txs {
+		if !t.IsEipTx() {
+			continue
+		}
+		for k, old := range h.byNonce {
+			if old.Payer == t.Payer && old.Nonce <= t.Nonce {
+				delete(h.byNonce, k)
+			}
+		}
+	}
+}
+
 // deliver hands late block-complete events and in-flight verified transactions over.
 func (h *hist) deliver(all bool) {
 	for len(h.lateBlocks) > 0 && (all || h.async.Chance(50)) {
@@ -139,6 +156,7 @@ func (h *hist) deliver(all bool) {
 		h.lateBlocks = h.lateBlocks[1:]
 		h.iv.AddBlock(b)
 		h.pool.CleanCompletedTransactionList(b.Transactions, b.Header.Height)
+		h.forgetCompleted(b.Transactions)
 		h.note("block-complete event for height %d delivered", b.Header.Height)
 	}
 	h.mu.Lock()
@@ -264,6 +282,7 @@ func (h *hist) proposeAndCommit() bool {
 		h.deliver(true)
 		h.iv.AddBlock(b)
 		h.pool.CleanCompletedTransactionList(b.Transactions, b.Header.Height)
+		h.forgetCompleted(b.Transactions)
 	}
 	h.mu.Lock()
 	for k, t := range h.byNonce { // Forward() drops everything below the committed nonces
